@@ -570,6 +570,56 @@ static void scen_pool(int n) {
   pool.JoinAll();
 }
 
+// ---- ThreadPool where the first r closures are two-stage jobs: when run they hand a follow-up to the same pool
+static int plr_children[16];
+static void plr_stage1(ola::thread::ThreadPool *pool, int seq, int resubmit) {
+  record(0, seq);
+  if (resubmit) {
+    int w = sch::self->id;
+    int k = plr_children[w & 15]++;
+    pool->Execute(ola::NewSingleCallback(record, w, k));
+  }
+}
+static void scen_poolre(int n, int r) {
+  ola::thread::ThreadPool pool(2);
+  pool.Init();
+  for (int i = 0; i < n; i++) pool.Execute(ola::NewSingleCallback(plr_stage1, &pool, i, i < r ? 1 : 0));
+  pool.JoinAll();
+}
+
+// ---- language-level operations on Future handles (copy-assignment incl. self-assignment and assignment over a live
+//      state, std::swap, destruction order), for Future<T> and Future<void>; a setter thread holds a copy
+static void fa_set(Future<int> *f) { f->Set(42); }
+static void fa_set(Future<void> *f) { f->Set(); }
+static int fa_get(Future<int> *f) { return f->Get(); }
+static int fa_get(Future<void> *f) { f->Get(); return 42; }
+template <typename F>
+static void *fa_setter(void *p) {
+  F *f = static_cast<F*>(p);
+  fa_set(f);
+  delete f;
+  return NULL;
+}
+template <typename F>
+static void scen_futasg() {
+  pthread_t t;
+  {
+    F f;
+    F *alias = &f;
+    f = *alias;                 // self-assignment of a sole owner: must not touch the shared state
+    F g(f);
+    g = f;                      // distinct handles that already share the state
+    F h;
+    h = f;                      // over a live state of which h is the sole owner: that state is freed
+    std::swap(g, h);
+    F *c = new F(f);
+    pthread_create(&t, NULL, fa_setter<F>, c);
+    int v = fa_get(&f);
+    out(1, v);
+  }  // ~h ~g ~f
+  pthread_join(t, NULL);
+}
+
 // ---- PeriodicThread: constructor starts the thread, Stop() terminates and joins it
 static bool per_cb() { out(2, 0); return true; }
 static void scen_periodic() {
@@ -669,6 +719,9 @@ static void child(const std::vector<std::string> &a) {
   else if (a[0] == "futcopy") scen_futcopy(atoi(a[1].c_str()));
   else if (a[0] == "periodic") scen_periodic();
   else if (a[0] == "pool") scen_pool(atoi(a[1].c_str()));
+  else if (a[0] == "poolre") scen_poolre(atoi(a[1].c_str()), atoi(a[2].c_str()));
+  else if (a[0] == "futasg" && a[1] == "int") scen_futasg<Future<int> >();
+  else if (a[0] == "futasg") scen_futasg<Future<void> >();
   else if (a[0] == "locker") scen_locker();
   else if (a[0] == "prefs") scen_prefs();
   else if (a[0] == "prefs2") scen_prefs2();
@@ -688,7 +741,8 @@ static std::string handle(const std::string &p) {
   if (!(a[0] == "exec" && a.size() == 3) && !(a[0] == "futraw" && a.size() == 2) &&
       !(a[0] == "futcopy" && a.size() == 3) && !(a[0] == "ss" && a.size() == 5) &&
       !(a[0] == "execre" && a.size() == 4) && !(a[0] == "periodic" && a.size() == 2) &&
-      !(a[0] == "pool" && a.size() == 3) && !(a[0] == "locker" && a.size() == 2) &&
+      !(a[0] == "pool" && a.size() == 3) && !(a[0] == "poolre" && a.size() == 4) &&
+      !(a[0] == "futasg" && a.size() == 3 && (a[1] == "int" || a[1] == "void")) && !(a[0] == "locker" && a.size() == 2) &&
       !(a[0] == "prefs" && a.size() == 2) && !(a[0] == "prefs2" && a.size() == 2) &&
       !(a[0] == "prefsj" && a.size() == 2) && !(a[0] == "term" && a.size() == 2) && !(a[0] == "ssd" && a.size() == 5))
     return "bad-op";
